@@ -12,7 +12,7 @@ static RegisterAtom *bufs[64];
 
 /* iteration callback script */
 static struct {
-    RegisterHandle seen[32];
+    RegisterHandle seen[RT_MAXREGS + 16];
     int nseen;
     int stop_at;   /* call index at which a non-zero value is returned (-1: never) */
     int stop_val;
@@ -23,8 +23,8 @@ it_cb(RegisterTable *t, RegisterHandle h, void *arg)
 {
     (void)t;
     if (arg != (void *)&it)
-        it.nseen = 99;
-    if (it.nseen < 32)
+        it.nseen = RT_MAXREGS + 15;
+    if (it.nseen < RT_MAXREGS + 16)
         it.seen[it.nseen] = h;
     int idx = it.nseen++;
     return idx == it.stop_at ? it.stop_val : 0;
@@ -145,7 +145,7 @@ one_iter(uint32_t addr, uint32_t len, int stop_at, int stop_val)
         for (int i = 0; i < it.nseen && i < 12; i++)
             o += (size_t)snprintf(got + o, sizeof got - o, "%u ", it.seen[i]);
         o = 0;
-        for (int i = 0; i < ncalls; i++)
+        for (int i = 0; i < ncalls && i < 12; i++)
             o += (size_t)snprintf(want + o, sizeof want - o, "%u ", exp[i]);
         vh_fail("iteration-sequence", key, "%s: callback saw handles [%s], expected [%s]", ctx, got, want);
     } else if ((int)a.code != expcode || (expcode == REG_ACCESS_FAILURE && a.address != expaddr)) {
